@@ -163,7 +163,13 @@ class World(object):
                 return ("bad-return", 0)
             raise tlc.MachineryError("unknown op %s" % op)
         except (StopIteration, IndexError, AttributeError, RuntimeError, TypeError, ValueError, OverflowError,
-                Hang) as ex:
+                NotImplementedError, Hang) as ex:
+            if op == "htake" and not isinstance(ex, Hang):
+                return ("exc", "Refused")           # C03 does not say how a hub refuses take()
+            # the classes the statement names include their subclasses
+            for cls in (StopIteration, IndexError):
+                if isinstance(ex, cls):
+                    return ("exc", cls.__name__)
             return ("exc", type(ex).__name__)
 
 
